@@ -566,7 +566,7 @@ func main() {
 	}
 	defer os.RemoveAll(root)
 	out := lib.NewOut(a.Out)
-	out.Rule = "every entry (each name bound in the real interpreter of the configuration, each special form and macro of the translator's tables, each name of any function table in the source) x 30 canary argument shapes (0-3 arguments: secret file path, absent path, existing file path, shell command string, environment names, int, array, symbol, computed path) as a direct call, and x 13 shapes through 14 further call forms (alias, let, apply, map, eval of quote/read/str2sym, infix, user macro, closure, hash-held value, symbol indirection, dot call, nested flow control); then grammar-generated programs combining entries; a case is non-trivial when the entry is bound / special / macro in that configuration (calls of unbound names are controls); distinct = distinct (configuration, script)"
+	out.Rule = "every entry (each name bound in the real interpreter of the configuration, each special form and macro of the translator's tables, each name of any function table in the source) x 30 canary argument shapes (0-3 arguments: secret file path, absent path, existing file path, shell command string, environment names, int, array, symbol, computed path) as a direct call, and x 13 shapes through 16 further call forms (alias, let, apply, map, eval of quote/read/str2sym, infix, user macro, code run at macro-expansion time, closure, hash-held value, symbol indirection, dot call, nested flow control); then grammar-generated programs combining entries; a case is non-trivial when the entry is bound / special / macro in that configuration (calls of unbound names are controls); distinct = distinct (configuration, script)"
 	stats := map[string]int{}
 
 	// 1. what is bound at run time
